@@ -81,11 +81,11 @@ func corporaFor(tier string) []CorpusSpec {
 
 // Corpus is a loaded generated code base.
 type Corpus struct {
-	Spec  CorpusSpec
-	Dir   string // root dir of generated code
+	Spec   CorpusSpec
+	Dir    string // root dir of generated code
 	InRepo bool
-	Pkgs  []*packages.Package
-	Fset  *token.FileSet
+	Pkgs   []*packages.Package
+	Fset   *token.FileSet
 }
 
 type Workspace struct {
